@@ -3,6 +3,7 @@
 //! `./check`, and the libFuzzer targets in /verif/fuzz call `fuzz::fuzz_one`.
 #![allow(clippy::all)]
 
+pub mod abi_table;
 pub mod codec;
 pub mod corpus;
 pub mod ctx;
